@@ -62,6 +62,10 @@ func ParseTime(timeStr string) (time.Time, error) {
 	if err != nil {
 		return time.Time{}, fmt.Errorf("invalid time string:%s, err:%s", timeStr, err.Error())
 	}
+	if prefixTimeStr+zone != timeStr {
+		// blanks or trailing text around the two fields
+		return time.Time{}, fmt.Errorf("invalid time string:%s", timeStr)
+	}
 	tm, err := time.Parse("20060102150405", prefixTimeStr)
 	if err != nil {
 		return time.Time{}, fmt.Errorf("invalid time string:%s, err:%s", timeStr, err.Error())
@@ -82,6 +86,10 @@ func ParseTimeOfDay(timeStr string) (time.Time, int, error) {
 	_, err := fmt.Sscanf(timeStr, format, &prefixTimeStr, &zone)
 	if err != nil {
 		return time.Time{}, 0, fmt.Errorf("invalid time string:%s, err:%s", timeStr, err.Error())
+	}
+	if prefixTimeStr+zone != timeStr || len(prefixTimeStr) != 6 {
+		// blanks or trailing text around the two fields, or hhmmss not 6 bytes
+		return time.Time{}, 0, fmt.Errorf("invalid time string:%s", timeStr)
 	}
 	ts, err := time.Parse("15:04:05", fmt.Sprintf("%s:%s:%s", timeStr[0:2], timeStr[2:4], timeStr[4:6]))
 	if err != nil {
